@@ -203,6 +203,10 @@ func runC17(t *testing.T, seed uint64, planJSON []byte, tier string) (res *Resul
 				}
 			}
 			r.checkC17(o, want, refRes)
+			if n := w.Srv.AbortLeftovers(); n > 0 {
+				// judged above; must not block the rows of the next episode
+				sim.Probe("c17-leftover-branch-or-transaction-aborted")
+			}
 			sim.State("!c17 " + strings.SplitN(ep.Fault, "#", 2)[0] + " outcome=" + ep.Outcome + fmt.Sprintf(" explicit=%v", len(ep.Branches) > 0 && ep.Branches[0].Explicit))
 			return o.done
 		}
